@@ -151,6 +151,7 @@ pub struct FfiStats {
     pub kinds: [u64; 4],
     pub flag_combos: std::collections::BTreeSet<(u32, bool, bool, u32)>,
     pub unknown_id_batches: u64,
+    pub refused_calls_inside_sessions: u64,
     pub error_codes: [u64; 5],
 }
 
@@ -183,7 +184,7 @@ pub fn differential(s: &Session, st: &mut FfiStats) -> Result<(), (String, Strin
         unsafe {
             buf.set_len(n + 4);
         }
-        for b in s.batches.iter() {
+        for (bi, b) in s.batches.iter().enumerate() {
             unsafe {
                 std::ptr::write_bytes(buf.as_mut_ptr() as *mut u8, GUARD, (n + 4) * slot);
             }
@@ -196,6 +197,29 @@ pub fn differential(s: &Session, st: &mut FfiStats) -> Result<(), (String, Strin
                 .collect();
             if b.iter().any(|e| ev_type(e).1 >= n && matches!(e, TriggerEvent::PaddingSent { .. } | TriggerEvent::BlockingBegin { .. } | TriggerEvent::TimerBegin { .. } | TriggerEvent::TimerEnd { .. })) {
                 st.unknown_id_batches += 1;
+            }
+            // before some batches: a call that must be refused (one null argument, same events), after which
+            // the session goes on; a refused call must leave no trace in the instance or in the caller's memory
+            if (bi + n + s.batches.len()) % 3 == 0 {
+                let mut sentinel: usize = 0xDEAD;
+                let which = (bi + s.batches.len()) % 4;
+                let rc = unsafe {
+                    match which {
+                        0 => maybenot_on_events(std::ptr::null_mut(), events.as_ptr(), events.len(), buf.as_mut_ptr().add(2), &mut sentinel),
+                        1 => maybenot_on_events(this, std::ptr::null(), events.len(), buf.as_mut_ptr().add(2), &mut sentinel),
+                        2 => maybenot_on_events(this, events.as_ptr(), events.len(), std::ptr::null_mut(), &mut sentinel),
+                        _ => maybenot_on_events(this, events.as_ptr(), events.len(), buf.as_mut_ptr().add(2), std::ptr::null_mut()),
+                    }
+                } as u32;
+                st.error_codes[rc.min(4) as usize] += 1;
+                st.refused_calls_inside_sessions += 1;
+                if rc != 4 {
+                    return Err(("C20/error-code".into(), format!("maybenot_on_events with null argument #{which} in the middle of a session returned {rc}, expected 4")));
+                }
+                let bytes = unsafe { std::slice::from_raw_parts(buf.as_ptr() as *const u8, (n + 4) * slot) };
+                if sentinel != 0xDEAD || bytes.iter().any(|x| *x != GUARD) {
+                    return Err(("C20/refused-call-wrote-output".into(), format!("a refused maybenot_on_events call (null argument #{which}) wrote to the action buffer or the count")));
+                }
             }
             let mut count: usize = usize::MAX;
             let rc = unsafe { maybenot_on_events(this, events.as_ptr(), events.len(), buf.as_mut_ptr().add(2), &mut count) } as u32;
@@ -409,6 +433,7 @@ impl Prop for C20 {
         out.add("batches_compared", st.batches);
         out.add("actions_compared_field_by_field", st.actions);
         out.add("batches_with_unknown_machine_ids", st.unknown_id_batches);
+        out.add("refused_calls_in_the_middle_of_sessions", st.refused_calls_inside_sessions);
         for (k, name) in ["actions_cancel", "actions_padding", "actions_blocking", "actions_timer"].iter().enumerate() {
             out.add(name, st.kinds[k]);
         }
